@@ -7,11 +7,11 @@ from checks import writer_common as W
 PROP = "C07"
 TRUSTED_BASE = list(W.COMMON_TRUSTED) + [
     "fault model boundary (DESIGN.md 2.3): a request is never applied by the broker after the client observed its failure and moved on; real TCP can violate this, no client-side mechanism addresses it",
-    "C07_order is proved for runs without a batchMessages after Close (ghost flag s_late = false); with that interleaving (F3) two partition writers for one partition can coexist",
+    "a topic-partition is served by one partition writer in every run (batchMessages re-checks w.closed, so none is created after Close)",
 ]
 ASSUMPTIONS = [
     "a goroutine issues its WriteMessages calls one after the other (the model's Call step requires the goroutine's previous call to have returned)",
-    "message ids unique per writer; no batchMessages after Close for C07_order",
+    "message ids unique per writer",
 ]
 
 
